@@ -161,6 +161,6 @@ func CoqStep(id int, in *Input, st *Step, obs *StepObs) string {
 		}
 		os = append(os, fmt.Sprintf("mkOC %s %s", coqBackend(obs.BeforeFlags[bid], nil, before), coqEps(obs.AllBacks[bid])))
 	}
-	return fmt.Sprintf("mkSC %s %s %s %s %s\n  %s\n  %s\n  %s\n  %s %s %s %s", hx.N(id), hx.Bool(committed), hx.Bool(obs.GlobalDiff), hx.Bool(obs.HostRemoved), hx.Bool(obs.BackRemoved),
+	return fmt.Sprintf("mkSC %s %s %s %s %s\n  %s\n  %s\n  %s\n  %s %s %s %s", hx.N(id), hx.Bool(committed), hx.Bool(obs.GlobalDiff || obs.DefaultDiff), hx.Bool(obs.HostRemoved), hx.Bool(obs.BackRemoved),
 		hx.List(hs), hx.List(bs), hx.List(os), hx.Bool(in.SortBy != ""), hx.Bool(obs.Written), hx.Bool(obs.Reloads > 0), hx.Bool(obs.Panic != ""))
 }
